@@ -14,7 +14,7 @@ CHECKS = {
          "DESIGN.md 5 C01"),
  "C02": ("fault_enumeration", "exhaustive fate-vector and outage enumeration with a drained-before-virtual-horizon oracle",
          "The same fate-vector space continued on a fair network until drained or a virtual horizon, plus total outages starting at every emission instant of the loss-free run for four outage lengths; "
-         "a quiescent-but-undrained state or a missed horizon is a wedge; plus real session pairs (cipher x FEC x mode grid) under every fate vector over the first K datagrams with blocking readers and writers, which must all finish.",
+         "a quiescent-but-undrained state or a missed horizon is a wedge; plus real session pairs (cipher x FEC x mode grid) under every fate vector over the first K datagrams with blocking readers and writers, which must all finish; every fourth core configuration again with the millisecond clock wrapping 45..1500 ms into the run.",
          "DESIGN.md 5 C02"),
  "C03": ("fault_enumeration", "exhaustive pause-point x control-datagram-loss-subset enumeration on two real KCP cores",
          "The reader pauses after every possible number of segments for four durations (below the first probe to above the probe cap) and every subset of the first N control-only datagrams after the pause is lost, in one and in both directions; explicit-state BFS (depth 4) over a forged peer with the probing invariants; "
@@ -34,7 +34,7 @@ CHECKS = {
          "deadline alphabets incl. ties with timer expiry and never-deadlines beyond the range of UnixNano, task functions that take time (busy worker), every arrival order of six pending tasks, 15..4097 pending tasks (every 2^k-1, 2^k, 2^k+1) in four shapes on the default schedule, both timer-channel semantics; oracle: each task exactly once, never early, run by the first quiescent state after its deadline, workers exit on Close.",
          "DESIGN.md 5 C17"),
  "C18": ("fault_enumeration", "exhaustive enumeration of a clean-path configuration grid; explicit-state BFS over acknowledgement timestamps and mode switches for the RTO bound",
-         "Every configuration of a grid (mode x nodelay x one-way delay with 2D+interval < min RTO x windows x stream/message x length, bidirectional) is executed without faults on two real cores; incl. two independent flush clocks, trained estimator plus outlier, bursts larger than the receive window against a receiver that inputs a batch before its reader runs, and a covering subset re-run near the 2^32/2^31 wraps of sn and clock; every data sn must appear on the wire exactly once; "
+         "Every configuration of a grid (mode x nodelay x one-way delay with 2D+interval < min RTO x windows x stream/message x length, bidirectional) is executed without faults on two real cores; incl. two independent flush clocks, trained estimator plus outlier, bursts larger than the receive window against a receiver that inputs a batch before its reader runs, and a covering subset re-run near the 2^32/2^31 wraps of sn and clock; every data sn must appear on the wire exactly once (an end re-arms its update with exactly what flush returns, as the session does); "
          "rx_rto within [minrto, 60000] after every call, and BFS (depth 5/6) over acknowledgements with aged/forged timestamps, ticks, sends and NoDelay mode switches (after a sample the RTO is at least the minimum of the current mode).",
          "DESIGN.md 5 C18"),
  "C20": ("model_checking", "explicit-state BFS to fixpoint over the real RingBuffer against a slice model",
@@ -51,17 +51,17 @@ CHECKS = {
          "2^20 sequential draws of the real entropy source are distinct, and so are concurrent draws under every interleaving (with scheduling points after every Unlock); two sessions accepted by one listener sealing with its one cipher object at the same time (every block operation a scheduling point, every single deviation, no state cache).",
          "DESIGN.md 5 C09"),
  "C10": ("exploration", "exhaustive enumeration of an MTU boundary alphabet x history positions x overhead classes on the real session and core",
-         "len of every buffer at WriteTo <= session MTU over MTU x cipher x FEC classes and all fate vectors; SetMtu(v) for a boundary alphabet at four positions of a traffic history (incl. concurrently, with loss) on the session, "
+         "len of every buffer at WriteTo <= session MTU over MTU x cipher x FEC classes and all fate vectors; SetMtu(v) for a boundary alphabet (incl. values just below the largest datagram sent) at six positions of a traffic history (incl. concurrently, with loss, and with the FEC group of a large packet still open under AEAD + FEC) on the session, "
          "and at three positions on the raw core; accepted => no panic, bound holds from then on, transfer completes; refused => only when unusable; out-of-band payload lengths around the maximum x MTU x cipher; emission-size BFS (depth 4) against a forged peer.",
          "DESIGN.md 5 C10"),
  "C13": ("model_checking", "stateless DFS over thread interleavings of the real session/listener code on a controlled scheduler with virtual time, iterated preemption bound, happens-before state caching",
-         "52 timed scripts (data, FEC-recovered data, draining a partly read message after Close, acks, window enlarged, sessions accepted from an owning listener that is closed, deadline none->set / later / earlier / zero->set / past, Close, socket errors; 1-3 blocked callers of Read/Write/Accept) x both timer-channel semantics; every interleaving within the deviation bound "
+         "58 timed scripts (data, data or acks in a datagram whose tail does not parse, one transient socket error at each position of a transmit batch, FEC-recovered data, draining a partly read message after Close, acks, window enlarged, sessions accepted from an owning listener that is closed, deadline none->set / later / earlier / zero->set / past, Close, socket errors; 1-3 blocked callers of Read/Write/Accept) x both timer-channel semantics; every interleaving within the deviation bound "
          "(delay bounding: preemptions, non-default thread at a blocking point, non-default ready select case); each call must return with the scripted outcome inside its virtual-time window (never before the effective deadline, not later than the instant it is due).",
          "DESIGN.md 5 C13"),
  "C15": ("model_checking", "stateless DFS with closers released at any scheduling point; leak and pool-ownership oracles",
          "Session pairs mid-transfer; closers for client, accepted session and listener (several orders) lurk and may be released at any scheduling point or at chosen virtual instants; afterwards every library goroutine must have exited, "
          "no timer may stay armed, and the pool sanitizer (double recycle, foreign buffer, write-after-recycle by poison; quarantine and eager-reuse modes) must stay silent; backlog overflow; SetDUP; "
-         "events before the shutdown (socket faults, out-of-band handlers closing from inside the callback, simultaneous closes, a forged FEC type in a steady stream, Close while the pipeline is full on a slow path) with and without the library owning the transport; listener closed at any point while new peers arrive.",
+         "events before the shutdown (socket faults, out-of-band handlers closing from inside the callback, simultaneous closes, a forged FEC type in a steady stream, Close while the pipeline is full on a slow path, a peer restarting with a new conversation so that the listener retires the old session) with and without the library owning the transport; listener closed at any point while new peers arrive.",
          "DESIGN.md 5 C15"),
  "C05": ("exploration", "structure-aware bounded-exhaustive input enumeration at every position of real histories, plus explicit-state BFS with an adversarial peer",
          "Truncations, extensions, constant strings and every single boundary-value header-field edit (thorough: pairs) of every genuine datagram, re-sealed with a valid CRC/tag, fed to the real packetInput at the datagram's history position "
@@ -87,7 +87,7 @@ CHECKS = {
          "DESIGN.md 5 C16"),
  "C11": ("fault_enumeration", "exhaustive fate-vector x injection enumeration on a real listener with several real clients; schedule deviations on a subset",
          "Listener + 2-3 dialled clients on the virtual network: every fate vector over the first K datagrams x one injected datagram (same address/other conversation with sn!=0, sn=0, ACK; foreign address replaying the conversation; "
-         "parity/short packets without readable conversation; datagrams mixing segments of two conversations; strangers and stale conversations writing to the dialled client) x three instants x backlog {default, 1} x address types x cipher/FEC classes, also through the Linux batch read loops on a virtual batch connection; an application that stops accepting while strangers keep the backlog full; a saturated session (pipeline overflow on a slow path) beside a second peer whose messages must keep arriving; "
+         "parity/short packets without readable conversation; datagrams mixing segments of two conversations; strangers (other hosts, the peer's host from another port, the peer's address in another zone) and stale conversations writing to the dialled client) x three instants x backlog {default, 1} x address types x cipher/FEC classes, also through the Linux batch read loops on a virtual batch connection; an application that stops accepting while strangers keep the backlog full; a saturated session (pipeline overflow on a slow path) beside a second peer whose messages must keep arriving; "
          "plus connect/close/reconnect histories (same address, new conversation, application handlers that close on Read error and close twice) x reconnect instant x idle deadline x fates; "
          "each accepted session's reads must be a prefix of what the peer at its address and conversation wrote, each genuine peer accepted exactly once, nothing foreign delivered, stalled or closed.",
          "DESIGN.md 5 C11"),
